@@ -211,6 +211,16 @@ fn judge_sat_history(backend: &Backend, ops: &[SOp], counts: &mut Vec<String>) -
             }
             let truth = if nvars <= 14 {
                 truth_table_sat(nvars, &clauses, a)
+            } else if clauses.len() > 150 && nvars <= 400 {
+                // hard instances (pigeonhole): the `cadical` crate used directly, not crustabri's wrapper
+                let mut r: cadical::Solver = cadical::Solver::new();
+                for c in clauses.iter() {
+                    r.add_clause(c.iter().map(|l| *l as i32));
+                }
+                match r.solve_with(a.iter().map(|l| *l as i32)) {
+                    Some(b) => b,
+                    None => return None,
+                }
             } else {
                 dpll(nvars, &clauses, a).is_some()
             };
@@ -411,8 +421,50 @@ pub fn run_c15(ctx: &mut Ctx) {
             ops.push(SOp::Solve(vec![]));
             ctx.count("histories/instance-text-above-64KiB");
             ops
+        } else if matches!(b, Backend::Cadical) && i % 3_001 == 17 {
+            // a hard instance behind a selector: pigeonhole 8 -> 7 (thousands of conflicts), every clause
+            // guarded by -s; satisfiable without the assumption s, unsatisfiable under it
+            let (p, h) = (8isize, 7isize);
+            let var = |i: isize, j: isize| -> isize { i * h + j + 1 };
+            let s = p * h + 1;
+            let mut ops: Vec<SOp> = Vec::new();
+            for i in 0..p {
+                let mut c: Vec<isize> = (0..h).map(|j| var(i, j)).collect();
+                c.push(-s);
+                ops.push(SOp::Add(c));
+            }
+            for j in 0..h {
+                for i in 0..p {
+                    for k in (i + 1)..p {
+                        ops.push(SOp::Add(vec![-var(i, j), -var(k, j), -s]));
+                    }
+                }
+            }
+            ops.push(SOp::Solve(vec![s]));
+            ops.push(SOp::Solve(vec![]));
+            ops.push(SOp::Solve(vec![-s, var(0, 0)]));
+            ops.push(SOp::Solve(vec![s, var(0, 0)]));
+            ctx.count("histories/hard-instance-behind-a-selector");
+            ops
         } else {
-            gen_sat_history(&mut rng, len)
+            let mut ops = gen_sat_history(&mut rng, len);
+            if rng.pct(8) {
+                // variable ids spread over several 64-blocks, several variables sharing a residue modulo 64
+                let f = |l: isize| -> isize {
+                    let v = l.unsigned_abs() as isize;
+                    let nv = 1 + (v % 3) + 64 * (v / 3);
+                    if l > 0 { nv } else { -nv }
+                };
+                for op in ops.iter_mut() {
+                    match op {
+                        SOp::Add(c) => c.iter_mut().for_each(|l| *l = f(*l)),
+                        SOp::Solve(a) => a.iter_mut().for_each(|l| *l = f(*l)),
+                        SOp::Reserve(n) => *n = 1 + (*n % 3) + 64 * (*n / 3),
+                    }
+                }
+                ctx.count("histories/variable-ids-spread-over-64-blocks");
+            }
+            ops
         };
         crate::report::guarded(ctx, |ctx| eval_sat_history(ctx, b, &ops));
         if rng.pct(if matches!(b, Backend::Cadical) { 10 } else { 25 }) {
